@@ -147,6 +147,15 @@ theorem setNets_wf {s s' : Nets} {limits cells : List Int} {nxo nyo nwt : Nat}
   · show limits.length - 1 + 1 = limits.length
     omega
 
+theorem setNetWeights_wf {s s' : Nets} {nwt : Nat} (h : Wf s) (hr : setNetWeights s nwt = some s') : Wf s' := by
+  unfold setNetWeights at hr
+  split at hr
+  · simp at hr
+  rename_i hn
+  simp at hr; subst hr
+  have hl := List.length_pos_iff.mpr h.nonempty
+  exact ⟨h.nonempty, h.front, h.sorted, h.backPins, h.inRange, h.xLen, h.yLen, by show nwt + 1 = s.limits.length; omega⟩
+
 theorem step_wf {s : Nets} (h : Wf s) (o : Op) : Wf (step s o) := by
   unfold step
   cases hr : apply? s o with
@@ -156,6 +165,7 @@ theorem step_wf {s : Nets} (h : Wf s) (o : Op) : Wf (step s o) := by
     cases o with
     | add c x y => exact addNet_wf h hr
     | set l c x y w => exact setNets_wf hr
+    | weights w => exact setNetWeights_wf h hr
 
 theorem run_wf {s : Nets} (h : Wf s) (ops : List Op) : Wf (run s ops) := by
   unfold run
@@ -180,6 +190,10 @@ theorem step_nbCells (s : Nets) (o : Op) : (step s o).nbCells = s.nbCells := by
       split at hr; · simp at hr
       split at hr; · simp at hr
       split at hr; · simp at hr
+      split at hr; · simp at hr
+      simp at hr; subst hr; rfl
+    | weights w =>
+      simp only [apply?, setNetWeights] at hr
       split at hr; · simp at hr
       simp at hr; subst hr; rfl
 
